@@ -17,7 +17,14 @@ import (
 	"verif/engine/smt"
 )
 
-const KernelDir = "/repo/kernel"
+// KernelDir is the kernel module checked; VERIF_KERNEL_DIR redirects development runs to a scratch worktree
+// (registered commands never set it: they always check /repo).
+var KernelDir = func() string {
+	if d := os.Getenv("VERIF_KERNEL_DIR"); d != "" {
+		return d
+	}
+	return "/repo/kernel"
+}()
 const KernelMod = "github.com/ProjectSerenity/firefly/kernel"
 
 // Harness describes one Verif_<id>_<name> function and its directives.
